@@ -1,5 +1,6 @@
 import M3d.Basic
 import M3d.Model.Numeric
+import M3d.Model.Svd2
 import M3d.Model.Curves
 import M3d.Model.Search
 import M3d.Gen.Binomial
@@ -115,6 +116,24 @@ def handleM4 (cd : Codec α) (op : String) (xs : List α) : Option String := do
   | "transpose" => some (outNums cd a.transpose.toList)
   | "charpoly" => some (outNums cd a.charPoly)
   | "mulcol" => some (outNums cd (a.mulColumn (xs.drop 16)))
+  | _ => none
+
+/-! ### `Matrix2.Eigenvalues` / `symEigDecomp` / `SVD` (faithful models; zeros printed without sign) -/
+
+def canonZero (x : α) : α := x + ((0 : Nat) : α)
+
+def handleEig2 (cd : Codec α) (sqrt : α → α) (op : String) (xs : List α) : Option String := do
+  let a ← M2.ofList xs
+  match op with
+  | "eig2" =>
+    let e := M2.eigenvalues sqrt a
+    some (outNums cd ([e.1, e.2.1, e.2.2].map canonZero))
+  | "symeig2" =>
+    let r := M2.symEigDecomp sqrt a
+    some (outNums cd ((r.1.toList ++ r.2.toList).map canonZero))
+  | "svd2" =>
+    let r := M2.svd sqrt a
+    some (outNums cd ((r.1.toList ++ r.2.1.toList ++ r.2.2.toList).map canonZero))
   | _ => none
 
 /-! ### objectives given as tables -/
@@ -346,6 +365,9 @@ def handleG (cd : Codec α) (sqrt : α → α) (trunc : α → Int) (exact : Boo
   | "m2" :: _ :: op :: rest => do handleM2 cd exact op (← rest.mapM cd.parse)
   | "m3" :: _ :: op :: rest => do handleM3 cd exact op (← rest.mapM cd.parse)
   | "m4" :: op :: rest => do handleM4 cd op (← rest.mapM cd.parse)
+  | "eig2" :: _ :: rest => do handleEig2 cd sqrt "eig2" (← rest.mapM cd.parse)
+  | "symeig2" :: _ :: rest => do handleEig2 cd sqrt "symeig2" (← rest.mapM cd.parse)
+  | "svd2" :: _ :: rest => do handleEig2 cd sqrt "svd2" (← rest.mapM cd.parse)
   | "ls" :: rest => handleLs cd rest
   | "g2" :: rest => handleG2 cd rest
   | "g3" :: rest => handleG3 cd rest
@@ -386,11 +408,44 @@ def handleQ (ws : List String) : Option String :=
     some (outList cd (bezPoly xs) ++ " " ++ outList cd (bezPoly ys))
   | _ => handleG cd ratSqrt ratTrunc true ws
 
+/-! ### scale covariance (`scov.f`): the real outputs on `M` scaled to the outputs on `2^k·M`
+
+`c17 scov.f <what> <variant> <k> <M…> | <outputs on M…>`: the expected line is `outᵢ · 2^(k·eᵢ)` with the
+exponents `eᵢ` given by the scale-covariance theorems of `Props/C17.lean` (`scovExponents`); multiplying a
+double by a power of two is exact, so the real outputs on `2^k·M` must be EQUAL to it. -/
+
+/-- Exponent of the scale factor for every output number of a kind:
+`svd2`: `u` (4) unchanged, `s` (4) scaled, `v` (4) unchanged (`svd2_reconstruct_smul`);
+`eig2`: both complex eigenvalues scaled (`mat2_smul_charpoly`); `symeig2`: `s` scaled, `v` unchanged;
+`inv2`/`inv3`: inverse by `2^-k` (`mat2_smul_inverse`, `mat3_smul_inverse`), then `Det` by `2^(nk)`
+(`mat2_smul_det`, `mat3_smul_det`); `charpoly4`: coefficient `i` by `2^((4-i)k)` (`mat4_smul_charpoly`),
+then `Det` by `2^(4k)` (`mat4_smul_det`). -/
+def scovExponents : String → Option (List Int)
+  | "svd2" => some [0, 0, 0, 0, 1, 1, 1, 1, 0, 0, 0, 0]
+  | "eig2" => some [1, 1, 1, 1]
+  | "symeig2" => some [1, 1, 1, 1, 0, 0, 0, 0]
+  | "inv2" => some [-1, -1, -1, -1, 2]
+  | "inv3" => some [-1, -1, -1, -1, -1, -1, -1, -1, -1, 3]
+  | "charpoly4" => some [4, 3, 2, 1, 0, 4]
+  | _ => none
+
+def handleScov (ws : List String) : Option String := do
+  match ws with
+  | what :: _variant :: k :: rest =>
+    let k ← k.toInt?
+    let es ← scovExponents what
+    let outs := (rest.dropWhile (· != "|")).drop 1
+    let xs ← outs.mapM floatOfHex
+    if xs.length ≠ es.length then none else
+    some (outNums floatCodec ((xs.zip es).map fun (x, e) => x.scaleB (k * e)))
+  | _ => none
+
 /-- The first token is `<kind>.<mode>` (so that the check's violation sites are per kind). -/
 def handleAll (ws : List String) : Option String :=
   match ws with
   | km :: rest =>
     match km.splitOn "." with
+    | ["scov", "f"] => handleScov rest
     | [kind, "q"] => handleQ (kind :: rest)
     | [kind, "f"] => handleG floatCodec Float.sqrt floatTrunc false (kind :: rest)
     | ["resid", "v"] => some "ok"
